@@ -366,6 +366,29 @@ class Check:
         return 1 if self.violations else 0
 
 
+def grouping_locale():
+    """a throw-away locale that differs from "C" in LC_NUMERIC only (digits grouped in threes with '.', decimal ','), compiled with
+    localedef into the cache.  Returns (LOCPATH, name) or None when the platform cannot build or load it."""
+    loc = os.path.join(CACHE, "locale"); name = "vf_GRP"
+    ok = os.path.join(loc, name, "LC_NUMERIC")
+    if not os.path.exists(ok):
+        if shutil.which("localedef") is None:
+            return None
+        os.makedirs(loc, exist_ok=True)
+        srcf = os.path.join(loc, "vf_GRP.src"); cm = os.path.join(loc, "ascii.charmap")
+        open(srcf, "w").write('LC_NUMERIC\ndecimal_point "<U002C>"\nthousands_sep "<U002E>"\ngrouping 3;3\nEND LC_NUMERIC\n')
+        with open(cm, "w") as f:
+            f.write("<code_set_name> ANSI_X3.4-1968\n<comment_char> %\n<escape_char> /\nCHARMAP\n")
+            for c in range(128):
+                f.write("<U%04X> /x%02x c%d\n" % (c, c, c))
+            f.write("END CHARMAP\n")
+        sh(["localedef", "-c", "-i", srcf, "-f", cm, os.path.join(loc, name)], timeout=120)
+    if not os.path.exists(ok):
+        return None
+    p = sh(["locale", "thousands_sep"], env={"LOCPATH": loc, "LC_ALL": name}, timeout=30)
+    return (loc, name) if p.stdout.strip() == b"." else None
+
+
 def rng(extra=0):
     return random.Random(seed() * 1000003 + extra)
 
